@@ -105,6 +105,17 @@ where
         }
     }
 
+    /// Tells whether `msg` carries a DISCONNECT packet that [handle_message](Self::handle_message) will write.
+    fn is_disconnect(connection: &Connection, msg: &ContextMessage) -> bool {
+        match msg {
+            ContextMessage::FireAndForget(msg) => {
+                msg.packet.first().map(|hdr| *hdr >> 4) == Some(DisconnectTx::PACKET_ID)
+                    && Self::validate_packet_size(connection, msg.packet.as_ref()).is_ok()
+            }
+            _ => false,
+        }
+    }
+
     async fn handle_message(
         tx: &mut TxPacketStream<TxStreamT>,
         connection: &mut Connection,
@@ -564,12 +575,23 @@ where
         loop {
             futures::select! {
                 maybe_rx_packet = pck_fut => {
-                    let rx_packet = maybe_rx_packet.ok_or(SocketClosed)?;
-                    Self::handle_packet(tx, connection, session, rx_packet?).await?;
+                    let rx_packet = maybe_rx_packet.ok_or(SocketClosed)??;
+                    let server_disconnected = matches!(rx_packet, RxPacket::Disconnect(_));
+                    Self::handle_packet(tx, connection, session, rx_packet).await?;
+                    if server_disconnected {
+                        // Reason 0; handle_packet fails with Disconnected for any other reason.
+                        return Ok(());
+                    }
                     pck_fut = rx.next().fuse();
                 },
                 maybe_msg = msg_fut => {
-                    Self::handle_message(tx, connection, session, maybe_msg.ok_or(HandleClosed)?).await?;
+                    let msg = maybe_msg.ok_or(HandleClosed)?;
+                    let disconnecting = Self::is_disconnect(connection, &msg);
+                    Self::handle_message(tx, connection, session, msg).await?;
+                    if disconnecting {
+                        // The DISCONNECT has been written, nothing may follow it.
+                        return Ok(());
+                    }
                     msg_fut = message_queue.next();
                 }
             }
